@@ -189,6 +189,28 @@ def r5_pool_wide(ctx, P):
             ctx.inst(R, b.path, okl, "the call is applied to each element of the iteration", where=b.where(s0[0]), site="in loop")
 
 
+def r6_poison_recovered(ctx, P, R="C19.R6"):
+    from . import flow
+    ctx.rule(R, "the pool survives a panic while its lock is held (a panicking getter that fails while it creates an arena unwinds with the "
+                "guard alive and poisons the mutex): every LockResult of the idle stack's mutex is recovered with "
+                "`unwrap_or_else(PoisonError::into_inner)`, never unwrap/expect-ed - otherwise every later try_get*, get* and the drop of "
+                "an outstanding guard panic and the guard's arena is leaked")
+    n = 0
+    for b in pool_bodies(P):
+        lock_dests = {t["dest"]["l"]: (s, t) for s, t in b.calls()
+                      if t["f"].get("path", "").split("::")[-1] in ("lock", "get_mut", "into_inner", "try_lock") and "Mutex" in t["f"].get("path", "")}
+        for l, (s, t) in lock_dests.items():
+            n += 1
+            users = [(us, ut) for us, ut in b.calls() if any(flow.op_local(a) == l for a in ut["args"])]
+            ok = len(users) == 1 and users[0][1]["f"].get("path") == "core::result::Result::<T, E>::unwrap_or_else" and \
+                any("PoisonError" in (a.get("s") or "") and "into_inner" in (a.get("s") or "") for a in users[0][1]["f"].get("args", [])[2:])
+            ctx.inst(R, b.path, ok, "poisoning is recovered (PoisonError::into_inner)" if ok else
+                     f"the LockResult of {t['f']['path'].split('::')[-1]} goes to {[u[1]['f'].get('path') for u in users]}: a poisoned mutex "
+                     "(a getter panicked on capacity overflow while holding the lock) makes every later use of the pool panic",
+                     where=b.where(s), site=f"{t['f']['name']} result recovered")
+    ctx.floor(R, "LockResults of the pool's mutex", n, 2)
+
+
 def run(ctx, progs):
     ctx.assume("rustc's ownership typing: a value moved out of a Vec by pop() has a single owner; Mutex gives exclusive access")
     ctx.assume("std::sync::Mutex and alloc::vec::Vec behave as documented")
@@ -203,6 +225,7 @@ def run(ctx, progs):
         r2_one_owner(ctx, P)
         r3_reuse_before_create(ctx, P)
         r5_pool_wide(ctx, P)
+        r6_poison_recovered(ctx, P)
     ctx.config = None
     ctx.need(any_std, "C19.R1", "a fact base with the std feature (BumpPool)")
     # the lifetime / thread-safety clauses: rustc decides them on the pool part of the witness corpus
